@@ -314,3 +314,17 @@ Lemma ex_values :
   from_weekday_of_month_opt 2017 3 4 2 = Val (Some (mkdate 2017 69)) /\
   years_since (mkdate 2021 59) (mkdate 2020 60) = Val (Some 0).
 Proof. vm_compute. repeat split. Qed.
+
+(** * The panicking week accessors: the same dates, a trap exactly when the checked form has nothing *)
+Theorem week_panicking_spec y o d w : repr y o d -> 0 <= w <= 6 ->
+  let f := week_start (dn_of_yo y o) w in
+  week_first_day (d_week d w) = (if dn_in_range f then Val (date_of_dn f) else Panic) /\
+  week_last_day (d_week d w) = (if dn_in_range (f + 6) then Val (date_of_dn (f + 6)) else Panic) /\
+  week_days (d_week d w) =
+    (if dn_in_range f && dn_in_range (f + 6) then Val (date_of_dn f, date_of_dn (f + 6)) else Panic).
+Proof.
+  intros H Hw f. unfold week_first_day, week_last_day, week_days, unwrap_r.
+  rewrite (week_first_spec y o d w H Hw), (week_last_spec y o d w H Hw).
+  pose proof (week_days_spec y o d w H Hw) as D. cbv zeta in D. rewrite D. fold f. cbn [bind].
+  destruct (dn_in_range f); destruct (dn_in_range (f + 6)); repeat split; reflexivity.
+Qed.
